@@ -131,6 +131,16 @@ func genCorpus(r *gen.Rand, big bool) []shardKind {
 		k.files = append(k.files, corpusFile{"nomatch.txt", []byte("plain\n")})
 		kinds = append(kinds, k)
 	}
+	if big {
+		// one shard whose result holds a file beyond gRPC's default 4 MiB receive limit between ordinary ones (the search
+		// returns whole file contents in these modes): it travels alone in its message and takes nothing with it
+		hugeBody := append(pad(4<<20+r.Range(1, 300_000)), []byte("x NEEDLE y\n")...)
+		kinds = append(kinds, shardKind{repo: "hit-huge", copies: 1, files: []corpusFile{
+			{"a-small.txt", []byte("a NEEDLE\n")},
+			{"b-huge.txt", hugeBody},
+			{"c-small.txt", []byte("c NEEDLE\nd NEEDLE\n")},
+		}})
+	}
 	return kinds
 }
 
